@@ -1063,6 +1063,23 @@ class ForRange(Statement):
         return hash(self.as_tuple())
 
 
+def _division(op, a, b):
+    """Get a quotient of two values.
+
+    UFL's division is true division also when both operands are integer
+    valued (e.g. conditional(c, 1, 3) / 2), whereas "/" between two
+    integers is integer division in C.
+    """
+    if a.dtype == DataType.INT and b.dtype == DataType.INT:
+        if isinstance(b, LiteralInt):
+            b = LiteralFloat(float(b.value))
+        elif isinstance(a, LiteralInt):
+            a = LiteralFloat(float(a.value))
+        else:
+            a = Mul(LiteralFloat(1.0), a)
+    return a / b
+
+
 def _math_function(op, *args):
     """Get a math function."""
     name = op._ufl_handler_name_
@@ -1085,7 +1102,7 @@ _ufl_call_lookup = {
     ufl.constantvalue.Zero: lambda x: LiteralFloat(0.0),
     ufl.algebra.Product: lambda x, a, b: a * b,
     ufl.algebra.Sum: lambda x, a, b: a + b,
-    ufl.algebra.Division: lambda x, a, b: a / b,
+    ufl.algebra.Division: _division,
     ufl.algebra.Abs: _math_function,
     ufl.algebra.Power: _math_function,
     ufl.algebra.Real: _math_function,
